@@ -28,6 +28,7 @@ fn main() {
         flush_pct: *rng.pick(&[10, 30, 60]),
         commit_pct: *rng.pick(&[5, 15, 40]),
         dup_pct: *rng.pick(&[10, 25, 40]),
+        dup_near_pct: *rng.pick(&[15, 30, 50]),
         noncausal_pct: *rng.pick(&[0, 5]),
         tips_pct: 70,
         action_pct: *rng.pick(&[0, 0, 8]),
